@@ -81,6 +81,7 @@ func init() {
 func runC06(c *Ctx) {
 	c06LinkScopes(c)
 	procStateFresh(c, "S1-per-packet-state")
+	peeringKnownBeforeUse(c, "O1-peering-known-before-use")
 	pp := "4:router.slowPathType"
 	unkIn := c.Const("pkg/slayers.SCMPCodeUnknownHopFieldIngress")
 	unkEg := c.Const("pkg/slayers.SCMPCodeUnknownHopFieldEgress")
